@@ -219,6 +219,39 @@ impl Compressor {
         &&& self.req_channels@.len() == self.num_threads
         &&& self.registrations@.len() == self.num_threads
     }
+//!fn src/app/log.rs Compressor::new rules=R12 props=C08
+    pub(crate) fn new(num_threads: usize, shutdown: sync::Arc<sync::atomic::AtomicBool>) -> ⟦(r: ⟧Self⟦)⟧
+@        ensures
+@            // one channel and one empty registration list per thread; nothing registered yet
+@            r.num_threads == num_threads, r.index == 0, r.req_channels@.len() == num_threads, r.registrations@.len() == num_threads,
+@            forall|t: int| 0 <= t < num_threads ==> (#[trigger] r.registrations@[t])@.len() == 0,
+@            // C08: the threads' channels are pairwise different (a routing key names one thread)
+@            forall|a: int, b: int| 0 <= a < b < num_threads ==> (#[trigger] r.req_channels@[a]).0.chan != (#[trigger] r.req_channels@[b]).0.chan, // [C08]
+    {
+        let mut req_channels⟦: Vec<(mpsc::Sender<CompressRequest>, Option<mpsc::Receiver<CompressRequest>>)>⟧ = vec![];
+        let mut registrations⟦: Vec<Vec<path::PathBuf>>⟧ = vec![];
+@        let ghost used: Set<int> = Set::empty();
+        for _i in 0..num_threads
+@            invariant
+@                req_channels@.len() == _i, registrations@.len() == _i,
+@                forall|t: int| 0 <= t < _i ==> (#[trigger] registrations@[t])@.len() == 0,
+@                forall|t: int| 0 <= t < _i ==> used.contains((#[trigger] req_channels@[t]).0.chan),
+@                forall|a: int, b: int| 0 <= a < b < _i ==> (#[trigger] req_channels@[a]).0.chan != (#[trigger] req_channels@[b]).0.chan,
+        {
+            let (req_tx, req_rx) = mpsc::channel_fresh(1000, Ghost(used));
+@            proof { used = used.insert(req_tx.chan); }
+            req_channels.push((req_tx, Some(req_rx)));
+            registrations.push(vec![]);
+        }
+        Self {
+            index: 0,
+            num_threads,
+            req_channels,
+            registrations,
+            shutdown,
+        }
+    }
+//!end
 //!fn src/app/log.rs Compressor::register props=C08
     pub(crate) fn register(&mut self, p: &path::Path) -> ⟦(res: ⟧Result<CompressorClient, MonorailError>⟦)⟧
 @        requires old(self).wf(), old(self).index < usize::MAX, file_name_of(p@) is Some, utf8_name(file_name_of(p@)->Some_0),
@@ -234,6 +267,8 @@ impl Compressor {
 @                &&& final(self).registrations@[t]@ == old(self).registrations@[t]@.push(final(self).registrations@[t]@[c.encoder_index as int])
 @                &&& final(self).registrations@[t]@[c.encoder_index as int]@ == p@
 @                &&& forall|u: int| 0 <= u < old(self).num_threads && u != t ==> final(self).registrations@[u] == old(self).registrations@[u]
+@                // the name the client carries (block headers, `log tail`) is the archive's file name
+@                &&& Some(c.file_name@) == file_name_of(p@)
 @            }, // [C08]
     {
         // todo; check path not already seen
@@ -252,5 +287,103 @@ impl Compressor {
     }
 //!end
 }
+
+// ---- initialize_compressor (app/run.rs): one pair of clients per target of the group ----
+//!type src/app/run.rs Logs
+pub struct Logs {
+    pub stdout_path: path::PathBuf,
+    pub stderr_path: path::PathBuf,
+}
+//!end
+//!type src/app/run.rs PlanTarget
+pub struct PlanTarget {
+    pub path: String,
+    pub command_work_path: path::PathBuf,
+    pub command_path: Option<path::PathBuf>,
+    pub command_args: Option<Vec<String>>,
+    pub logs: Logs,
+}
+//!end
+pub mod log { pub use super::Compressor; pub use super::CompressorClient; }
+// C08: a client writes into the archive `p`: its channel is thread t's and `p` is that thread's registration at the client's index
+pub open spec fn routes_to(c: Compressor, cl: CompressorClient, p: Seq<char>) -> bool {
+    exists|t: int| 0 <= t < c.num_threads && cl.req_tx.chan == (#[trigger] c.req_channels@[t]).0.chan
+        && 0 <= cl.encoder_index < c.registrations@[t]@.len() && c.registrations@[t]@[cl.encoder_index as int]@ == p
+}
+pub open spec fn names_ok(t: PlanTarget) -> bool {
+    file_name_of(t.logs.stdout_path@) is Some && utf8_name(file_name_of(t.logs.stdout_path@)->Some_0) && file_name_of(t.logs.stderr_path@) is Some && utf8_name(file_name_of(t.logs.stderr_path@)->Some_0)
+}
+proof fn lemma_routes_kept(c0: Compressor, c1: Compressor, t: int, cl: CompressorClient, p: Seq<char>)
+    requires c0.wf(), c1.wf(), c0.num_threads == c1.num_threads, c0.req_channels == c1.req_channels, 0 <= t < c0.num_threads,
+        c1.registrations@[t]@ == c0.registrations@[t]@.push(c1.registrations@[t]@[c0.registrations@[t]@.len() as int]),
+        forall|u: int| 0 <= u < c0.num_threads && u != t ==> c1.registrations@[u] == c0.registrations@[u],
+        routes_to(c0, cl, p),
+    ensures routes_to(c1, cl, p),
+{
+    let u = choose|u: int| 0 <= u < c0.num_threads && cl.req_tx.chan == (#[trigger] c0.req_channels@[u]).0.chan && 0 <= cl.encoder_index < c0.registrations@[u]@.len() && c0.registrations@[u]@[cl.encoder_index as int]@ == p;
+    assert(cl.req_tx.chan == c1.req_channels@[u].0.chan);
+    if u == t { assert(c1.registrations@[t]@[cl.encoder_index as int] == c0.registrations@[t]@[cl.encoder_index as int]); }
+}
+//!fn src/app/run.rs initialize_compressor props=C08,C20
+fn initialize_compressor(
+    plan_targets: &[PlanTarget],
+    num_threads: usize,
+) -> ⟦(res: ⟧Result<
+    (
+        log::Compressor,
+        Vec<(log::CompressorClient, log::CompressorClient)>,
+    ),
+    MonorailError,
+>⟦)⟧
+@    requires
+@        num_threads > 0, 2 * plan_targets@.len() < usize::MAX,
+@        // ASSUMED of the plan (Logs::new joins the names stdout.zst / stderr.zst onto the task's log directory)
+@        forall|i: int| 0 <= i < plan_targets@.len() ==> names_ok(#[trigger] plan_targets@[i]),
+@    ensures
+@        res matches Ok(p) ==> {
+@            &&& p.1@.len() == plan_targets@.len()
+@            // C08: the i-th pair of clients writes into the i-th target's two archives - stdout client into its stdout archive, stderr
+@            // client into its stderr archive
+@            &&& forall|i: int| 0 <= i < plan_targets@.len() ==> routes_to(p.0, (#[trigger] p.1@[i]).0, plan_targets@[i].logs.stdout_path@) && routes_to(p.0, p.1@[i].1, plan_targets@[i].logs.stderr_path@)
+@            // C20: and carries that archive's file name (the stream name of its block headers)
+@            &&& forall|i: int| 0 <= i < plan_targets@.len() ==> Some((#[trigger] p.1@[i]).0.file_name@) == file_name_of(plan_targets@[i].logs.stdout_path@) && Some(p.1@[i].1.file_name@) == file_name_of(plan_targets@[i].logs.stderr_path@)
+@        }, // [C08,C20]
+{
+    let mut compressor = log::Compressor::new(
+        num_threads,
+        sync::Arc::new(sync::atomic::AtomicBool::new(false)),
+    );
+    let mut clients⟦: Vec<(log::CompressorClient, log::CompressorClient)>⟧ = Vec::new();
+
+    for plan_target in ⟦itp: ⟧plan_targets.iter()
+@        invariant
+@            compressor.wf(), compressor.num_threads == num_threads, compressor.index == 2 * itp.index@, 2 * plan_targets@.len() < usize::MAX,
+@            clients@.len() == itp.index@, itp.seq().len() == plan_targets@.len(), forall|q: int| 0 <= q < plan_targets@.len() ==> *itp.seq()[q] == plan_targets@[q],
+@            forall|i: int| 0 <= i < plan_targets@.len() ==> names_ok(#[trigger] plan_targets@[i]),
+@            forall|i: int| 0 <= i < itp.index@ ==> routes_to(compressor, (#[trigger] clients@[i]).0, plan_targets@[i].logs.stdout_path@) && routes_to(compressor, clients@[i].1, plan_targets@[i].logs.stderr_path@),
+@            forall|i: int| 0 <= i < itp.index@ ==> Some((#[trigger] clients@[i]).0.file_name@) == file_name_of(plan_targets@[i].logs.stdout_path@) && Some(clients@[i].1.file_name@) == file_name_of(plan_targets@[i].logs.stderr_path@),
+    {
+@        let ghost c0 = compressor;
+@        let ghost n = itp.index@;
+@        assert(names_ok(plan_targets@[n])); assert(*plan_target == plan_targets@[n]);
+        let stdout_client = compressor.register(&plan_target.logs.stdout_path)?;
+@        let ghost c1 = compressor;
+@        let ghost t1 = (c0.index % c0.num_threads) as int;
+        let stderr_client = compressor.register(&plan_target.logs.stderr_path)?;
+@        let ghost t2 = (c1.index % c1.num_threads) as int;
+@        proof {
+@            assert forall|i: int| 0 <= i < n implies routes_to(compressor, (#[trigger] clients@[i]).0, plan_targets@[i].logs.stdout_path@) && routes_to(compressor, clients@[i].1, plan_targets@[i].logs.stderr_path@) by {
+@                lemma_routes_kept(c0, c1, t1, clients@[i].0, plan_targets@[i].logs.stdout_path@); lemma_routes_kept(c1, compressor, t2, clients@[i].0, plan_targets@[i].logs.stdout_path@);
+@                lemma_routes_kept(c0, c1, t1, clients@[i].1, plan_targets@[i].logs.stderr_path@); lemma_routes_kept(c1, compressor, t2, clients@[i].1, plan_targets@[i].logs.stderr_path@);
+@            }
+@            assert(routes_to(c1, stdout_client, plan_target.logs.stdout_path@)) by { assert(c1.req_channels@[t1].0.chan == stdout_client.req_tx.chan); }
+@            lemma_routes_kept(c1, compressor, t2, stdout_client, plan_target.logs.stdout_path@);
+@            assert(routes_to(compressor, stderr_client, plan_target.logs.stderr_path@)) by { assert(compressor.req_channels@[t2].0.chan == stderr_client.req_tx.chan); }
+@        }
+        clients.push((stdout_client, stderr_client));
+    }
+    Ok((compressor, clients))
+}
+//!end
 } // verus!
 fn main() {}
